@@ -34,7 +34,10 @@ type primaryGC struct {
 	reclaimed   int64
 }
 
-type UpdateIndexFunc func([]byte, types.Block) error
+// UpdateIndexFunc moves the index entry of a key from oldBlock to newBlock.
+// It must fail, leaving the index unchanged, if the index does not name
+// oldBlock for the key.
+type UpdateIndexFunc func(indexKey []byte, oldBlock, newBlock types.Block) error
 
 func newGC(primary *MultihashPrimary, freeList *freelist.FreeList, interval, timeLimit time.Duration, updateIndex UpdateIndexFunc) *primaryGC {
 	gc := &primaryGC{
@@ -329,8 +332,10 @@ func (gc *primaryGC) reapRecords(fileNum uint32, lowUsePercent int64) (bool, err
 				return false, fmt.Errorf("cannot put new primary record: %w", err)
 			}
 			// Update the index with the new primary location.
+			offset := absolutePrimaryPos(types.Position(busyAt), fileNum, gc.primary.maxFileSize)
+			blk := types.Block{Size: types.Size(busySize), Offset: types.Position(offset)}
 			verifhook.Yield("gc.reap.beforeUpdateIndex")
-			if err = gc.updateIndex(indexKey, fileOffset); err != nil {
+			if err = gc.updateIndex(indexKey, blk, fileOffset); err != nil {
 				log.Errorw("Cannot update index with new record location", "err", err)
 				// Failed to index the moved record, most likely because the
 				// key was not found in the index. The moved record is
@@ -338,6 +343,12 @@ func (gc *primaryGC) reapRecords(fileNum uint32, lowUsePercent int64) (bool, err
 				if err = gc.freeList.Put(fileOffset); err != nil {
 					log.Errorw("Cannot put failed index record location into freelist", "err", err)
 				}
+				// The record at the old location is not what the index names:
+				// whoever superseded it is responsible for freeing it.
+				busyAt = prevBusyAt
+				busySize = prevBusySize
+				prevBusyAt = -1
+				continue
 			} else {
 				log.Debugw("Moved record from end of low-use file", "from", fileName, "free", totalFree, "busy", totalBusy)
 			}
@@ -347,8 +358,6 @@ func (gc *primaryGC) reapRecords(fileNum uint32, lowUsePercent int64) (bool, err
 			// keeps low-use files getting processed each GC cycle.
 
 			// Add outdated data in primary storage to freelist
-			offset := absolutePrimaryPos(types.Position(busyAt), fileNum, gc.primary.maxFileSize)
-			blk := types.Block{Size: types.Size(busySize), Offset: types.Position(offset)}
 			if err = gc.freeList.Put(blk); err != nil {
 				return false, fmt.Errorf("cannot put old record location into freelist: %w", err)
 			}
